@@ -33,6 +33,7 @@ Families == {"ipv4", "ipv6", "ipv4-vpn", "l2vpn-evpn", "ipv4-flowspec"}
 Views    == {"pre", "post", "out_pre", "out_post", "locrib"}
 Counts   == {"one", "few", "many", "huge"}     \* many: more NLRI than fit one 4096-octet frame; huge: more than fit a 65535-octet one
 Afs      == {"v4", "v6"}
+Nhs      == {"v4", "v6", "v6ll"}               \* v6ll: the 32-octet IPv6 next hop (global + link-local address)
 AttrSz   == {"small", "big", "over"}           \* big: an attribute block close to the 4096-octet frame limit on its own;
                                                \* over: beyond it (received over a session with extended messages, RFC 8654)
 
@@ -43,14 +44,14 @@ R(k, view, peer, local, fam, addpath, dir, count, nh, attrs, x) ==
 \* ---------------------------------------------------------------- events
 BmpRm ==
   {R("rm", vw, p, p, f, ap, d, c, nh, a, "") :
-     vw \in Views, p \in Afs, f \in Families, ap \in BOOLEAN, d \in {"reach", "unreach", "eor"}, c \in Counts, nh \in Afs, a \in AttrSz}
+     vw \in Views, p \in Afs, f \in Families, ap \in BOOLEAN, d \in {"reach", "unreach", "eor"}, c \in Counts, nh \in Nhs, a \in AttrSz}
 BmpPeerUp   == {R("peerup", "pre", p, l, "ipv4", FALSE, "", "", "", "", x) : p \in Afs, l \in Afs, x \in {"nocaps", "caps", "locrib"}}
 BmpPeerDown == {R("peerdown", "pre", p, p, "ipv4", FALSE, "", "", "", "", x) :
                   p \in Afs, x \in {"localnotif", "localfsm", "remotenotif", "remoteunexpected", "deconfigured"}}
 BmpInit     == {R("initiation", "pre", "v4", "v4", "ipv4", FALSE, "", "", "", "", x) : x \in {"two", "none", "long"}}
 MrtMp ==
   {R("mrt", "pre", p, p, f, ap, d, c, nh, a, "") :          \* a session runs over one socket: both addresses of one family
-     p \in Afs, f \in Families, ap \in BOOLEAN, d \in {"reach", "unreach"}, c \in Counts, nh \in Afs, a \in AttrSz}
+     p \in Afs, f \in Families, ap \in BOOLEAN, d \in {"reach", "unreach"}, c \in Counts, nh \in Nhs, a \in AttrSz}
 TableDump ==
   {R("td", "pre", p, p, f, FALSE, "reach", c, nh, a, x) :
      p \in Afs, f \in {"ipv4", "ipv6"}, c \in {"one", "few"}, nh \in Afs, a \in {"small", "big"}, x \in {"peers1", "peers3", "peersmixed", "localsrc"}}
@@ -62,7 +63,8 @@ Meaningful(e) ==
   /\ (e.k = "rm" /\ e.view \in {"out_pre", "out_post"} => e.count = "one")                    \* one NLRI per Adj-RIB-Out event
   /\ (e.k \in {"rm", "mrt"} /\ e.fam \in {"ipv4-vpn", "l2vpn-evpn", "ipv4-flowspec"} => e.count \in {"one", "few"} /\ e.attrs = "small")
   /\ (e.k \in {"rm", "mrt"} /\ e.fam = "ipv4-flowspec" => e.nh = "v4")
-  /\ (e.k \in {"rm", "mrt"} /\ e.fam = "ipv6" => e.nh = "v6")
+  /\ (e.k \in {"rm", "mrt"} /\ e.fam = "ipv6" => e.nh \in {"v6", "v6ll"})
+  /\ (e.k \in {"rm", "mrt"} /\ e.nh = "v6ll" => e.fam \in {"ipv4", "ipv6"} /\ e.count \in {"one", "few"})
   /\ (e.k \in {"rm", "mrt"} /\ e.count = "huge" => e.attrs = "small" /\ e.fam = "ipv4")
   /\ (e.k \in {"rm", "mrt"} /\ e.attrs = "over" => e.count = "one" /\ e.fam \in {"ipv4", "ipv6"})
 Cases == {e \in BmpRm \cup BmpPeerUp \cup BmpPeerDown \cup BmpInit \cup MrtMp : Meaningful(e)}
